@@ -205,6 +205,7 @@ def handle : List String → String
   | "parts" :: rest => (C07Acc.handle ("parts" :: rest)).getD "bad-args"
   | ["agg", "numf", k, r, h, q] => (C07NumF64.handle ["agg", "numf", k, r, h, q]).getD "bad-args"
   | ["agg", "numfv", k, r, h, q] => (C07NumF64.handle ["agg", "numfv", k, r, h, q]).getD "bad-args"
+  | ["agg", "numerr", e, h] => (C07NumF64.handle ["agg", "numerr", e, h]).getD "bad-args"
   | ["agg", "counter", h] =>
     match decHexList h with
     | some hist => "ok " ++ bar ((prefixes Counter.sample {} hist).map dumpCounter)
